@@ -56,7 +56,8 @@ pub open spec fn list_ok(slots: Map<nat, SlotW>, l: Seq<nat>, c: int) -> bool {
 pub open spec fn head_at(pm: PieceMgr, b: Seq<u8>, c: int) -> nat { le64_at(b, pm.free_list_offset@[0] as int + 8 * c) }
 pub open spec fn lists_ok(b: Seq<u8>, pm: PieceMgr, w: HeapW) -> bool {
     &&& w.lists.len() == 16
-    &&& forall|c: int| 0 <= c < 16 ==> #[trigger] list_ok(w.slots, w.lists[c], c) && head_at(pm, b, c) == first(w.lists[c])
+    &&& forall|c: int| 0 <= c < 16 ==> #[trigger] list_ok(w.slots, w.lists[c], c)
+    &&& forall|c: int| 0 <= c < 16 ==> #[trigger] head_at(pm, b, c) == first(w.lists[c])
 }
 /// every free slot is a member of the list of its class
 #[verifier::opaque]
@@ -132,6 +133,12 @@ pub proof fn lemma_slot_elim(b: Seq<u8>, o: nat, s: SlotW)
 pub proof fn lemma_tiling_disjoint(len: nat, m: Map<nat, SlotW>, o1: nat, o2: nat)
     requires tiling(len, m), m.dom().contains(o1), m.dom().contains(o2), o1 != o2
     ensures o1 + m[o1].size <= o2 || o2 + m[o2].size <= o1, o1 >= 192, o2 >= 192
+{
+    reveal(tiling);
+}
+pub proof fn lemma_tiling_len(len: nat, m: Map<nat, SlotW>)
+    requires tiling(len, m)
+    ensures len >= 192
 {
     reveal(tiling);
 }
@@ -295,6 +302,301 @@ pub open spec fn w_unlink(w: HeapW, c: int, k: int) -> HeapW {
     let slots1 = w.slots.insert(o, SlotW { size: w.slots[o].size, c: SlotC::Cleared });
     let slots2 = if k > 0 { slots1.insert(l[k - 1], SlotW { size: w.slots[l[k - 1]].size, c: SlotC::Free(nxt(l, k)) }) } else { slots1 };
     HeapW { slots: slots2, lists: w.lists.update(c, rm(l, k)) }
+}
+
+} // verus!
+
+verus! {
+// ================================================================================================
+// lifting: byte-level facts about one operation  ==>  heap_ok of the updated witness
+// ================================================================================================
+
+/// bytes unchanged outside two slot windows and one 8-byte header field (use o2 == o1 for a single slot, h == -8 for "no header field")
+pub open spec fn frame3(b0: Seq<u8>, b1: Seq<u8>, o1: int, n1: int, o2: int, n2: int, h: int) -> bool {
+    &&& b1.len() == b0.len()
+    &&& forall|i: int| 0 <= i < b0.len() && !(o1 <= i < o1 + n1) && !(o2 <= i < o2 + n2) && !(h <= i < h + 8) ==> #[trigger] b1[i] == b0[i]
+}
+
+/// all slots other than o1, o2 keep their state; all heads other than the one at h keep their value
+pub proof fn lemma_frame3_others(b0: Seq<u8>, b1: Seq<u8>, pm: PieceMgr, w: HeapW, o1: nat, o2: nat, h: int, hc: int)
+    requires heap_ok(b0, pm, w), w.slots.dom().contains(o1), w.slots.dom().contains(o2),
+        frame3(b0, b1, o1 as int, w.slots[o1].size as int, o2 as int, w.slots[o2].size as int, h),
+        h <= -8 || (0 <= hc < 16 && h == pm.free_list_offset@[0] as int + 8 * hc),
+    ensures
+        forall|o: nat| #[trigger] w.slots.dom().contains(o) && o != o1 && o != o2 ==> slot_ok(b1, o, w.slots[o]),
+        forall|c: int| 0 <= c < 16 && pm.free_list_offset@[0] as int + 8 * c != h ==> #[trigger] head_at(pm, b1, c) == head_at(pm, b0, c),
+        rd(b1, 0, 32) == rd(b0, 0, 32),
+{
+    assert(slot_ok(b0, o1, w.slots[o1]));
+    assert(slot_ok(b0, o2, w.slots[o2]));
+    lemma_slot_bounds(b0, o1, w.slots[o1]);
+    lemma_slot_bounds(b0, o2, w.slots[o2]);
+    assert forall|o: nat| #[trigger] w.slots.dom().contains(o) && o != o1 && o != o2 implies slot_ok(b1, o, w.slots[o]) by {
+        let s = w.slots[o];
+        assert(slot_ok(b0, o, s));
+        lemma_slot_bounds(b0, o, s);
+        lemma_tiling_disjoint(b0.len(), w.slots, o, o1);
+        lemma_tiling_disjoint(b0.len(), w.slots, o, o2);
+        lemma_rd_same(b0, b1, o as int, s.size as int);
+        lemma_slot_frame(b0, b1, o, s);
+    }
+    assert forall|c: int| 0 <= c < 16 && pm.free_list_offset@[0] as int + 8 * c != h implies #[trigger] head_at(pm, b1, c) == head_at(pm, b0, c) by {
+        lemma_rd_same(b0, b1, pm.free_list_offset@[0] as int + 8 * c, 8);
+    }
+    lemma_tiling_len(b0.len(), w.slots);
+    lemma_rd_same(b0, b1, 0, 32);
+}
+
+pub proof fn lemma_push(b0: Seq<u8>, b1: Seq<u8>, pm: PieceMgr, w: HeapW, o: nat)
+    requires
+        heap_ok(b0, pm, w), w.slots.dom().contains(o), !(w.slots[o].c is Free),
+        frame3(b0, b1, o as int, w.slots[o].size as int, o as int, w.slots[o].size as int, head_pos(pm, w.slots[o].size)),
+        free_at(b1, o as int, w.slots[o].size, head_of(pm, b0, w.slots[o].size)),
+        head_of(pm, b1, w.slots[o].size) == o,
+    ensures heap_ok(b1, pm, w_push(w, o))
+{
+    let size = w.slots[o].size;
+    let c = class_idx(size);
+    let h = head_pos(pm, size);
+    let w1 = w_push(w, o);
+    let l = w.lists[c];
+    assert(slot_ok(b0, o, w.slots[o]));
+    lemma_slot_bounds(b0, o, w.slots[o]);
+    assert(h == pm.free_list_offset@[0] as int + 8 * c);
+    lemma_frame3_others(b0, b1, pm, w, o, o, h, c);
+    assert(list_ok(w.slots, w.lists[c], c));
+    assert(head_at(pm, b0, c) == first(l));
+    // tiling
+    assert(w1.slots.dom() =~= w.slots.dom());
+    lemma_tiling_same_sizes(b0.len(), w.slots, w1.slots);
+    // slots
+    lemma_slot_intro(b1, o, w1.slots[o]);
+    assert forall|o2: nat| #[trigger] w1.slots.dom().contains(o2) implies slot_ok(b1, o2, w1.slots[o2]) by {
+        if o2 != o { assert(w.slots.dom().contains(o2)); }
+    }
+    // lists
+    lemma_list_push(w.slots, l, c, o);
+    assert forall|c2: int| 0 <= c2 < 16 implies #[trigger] head_at(pm, b1, c2) == first(w1.lists[c2]) by {
+        assert(head_at(pm, b0, c2) == first(w.lists[c2]));
+        if c2 == c { assert(w1.lists[c] == seq![o] + l); }
+    }
+    assert forall|c2: int| 0 <= c2 < 16 implies #[trigger] list_ok(w1.slots, w1.lists[c2], c2) by {
+        assert(list_ok(w.slots, w.lists[c2], c2));
+        if c2 != c {
+            lemma_not_member(w.slots, w.lists[c2], c2, o);
+            let l2 = w.lists[c2];
+            assert forall|i: int| 0 <= i < l2.len() implies #[trigger] w1.slots.dom().contains(l2[i]) && w1.slots[l2[i]] == w.slots[l2[i]] by {
+                lemma_list_member(w.slots, l2, c2, i);
+                assert(l2.contains(l2[i]));
+            }
+            lemma_list_untouched(w.slots, w1.slots, l2, c2);
+        } else {
+            assert(w1.lists[c] == seq![o] + l);
+            assert(first(w1.lists[c]) == o);
+        }
+    }
+    // membership
+    assert(free_members(w1)) by {
+        reveal(free_members);
+        assert forall|o2: nat| #[trigger] w1.slots.dom().contains(o2) && w1.slots[o2].c is Free implies w1.lists[class_idx(w1.slots[o2].size)].contains(o2) by {
+            if o2 == o {
+                assert(w1.lists[c][0] == o);
+            } else {
+                let c2 = class_idx(w.slots[o2].size);
+                assert(w.slots.dom().contains(o2));
+                assert(w.lists[c2].contains(o2));
+                let i = choose|i: int| 0 <= i < w.lists[c2].len() && w.lists[c2][i] == o2;
+                assert(slot_ok(b0, o2, w.slots[o2]));
+                lemma_slot_bounds(b0, o2, w.slots[o2]);
+                if c2 == c { assert(w1.lists[c2][i + 1] == o2); } else { assert(w1.lists[c2][i] == o2); }
+            }
+        }
+    }
+}
+
+} // verus!
+
+verus! {
+// ---- what the bytes say about a free-list member (reader side) ----------------------------------------------
+pub proof fn lemma_member_decodes(b: Seq<u8>, pm: PieceMgr, w: HeapW, c: int, i: int)
+    requires heap_ok(b, pm, w), 0 <= c < 16, 0 <= i < w.lists[c].len()
+    ensures ({
+        let o = w.lists[c][i];
+        &&& o != 0 && w.slots.dom().contains(o)
+        &&& free_rec_ok(b, o as int) && rec_len(b, o as int) == 0
+        &&& rec_size(b, o as int) == w.slots[o].size
+        &&& free_next(b, o as int) == nxt(w.lists[c], i)
+        &&& class_idx(w.slots[o].size) == c
+        &&& o >= 192 && o + w.slots[o].size <= b.len() && w.slots[o].size >= 16 && w.slots[o].size % 8 == 0 && w.slots[o].size <= u32::MAX
+        &&& is_slot_size(w.slots[o].size)
+        &&& free_at(b, o as int, w.slots[o].size, nxt(w.lists[c], i))
+    })
+{
+    let l = w.lists[c];
+    let o = l[i];
+    assert(list_ok(w.slots, l, c));
+    lemma_list_member(w.slots, l, c, i);
+    assert(slot_ok(b, o, w.slots[o]));
+    lemma_slot_bounds(b, o, w.slots[o]);
+    lemma_slot_elim(b, o, w.slots[o]);
+    lemma_free_decodes(b, o as int, w.slots[o].size, nxt(l, i));
+}
+
+/// free lists (members and member sizes) are determined by the bytes: two witnesses agree on them
+pub proof fn lemma_list_unique_w(b: Seq<u8>, pm: PieceMgr, w1: HeapW, w2: HeapW, c: int)
+    requires heap_ok(b, pm, w1), heap_ok(b, pm, w2), 0 <= c < 16
+    ensures w1.lists[c] == w2.lists[c],
+        forall|i: int| 0 <= i < w1.lists[c].len() ==> w1.slots[#[trigger] w1.lists[c][i]].size == w2.slots[w1.lists[c][i]].size
+{
+    let l1 = w1.lists[c]; let l2 = w2.lists[c];
+    assert(head_at(pm, b, c) == first(l1));
+    assert(head_at(pm, b, c) == first(l2));
+    lemma_list_prefix_eq(b, pm, w1, w2, c, l1.len() as int);
+    // lengths: whichever list is longer would have a non-zero next where the other ends
+    if l1.len() < l2.len() {
+        lemma_list_prefix_eq(b, pm, w1, w2, c, l1.len() as int);
+        if l1.len() > 0 {
+            lemma_member_decodes(b, pm, w1, c, l1.len() - 1);
+            lemma_member_decodes(b, pm, w2, c, l1.len() - 1);
+            lemma_member_decodes(b, pm, w2, c, l1.len() as int);
+        } else {
+            lemma_member_decodes(b, pm, w2, c, 0);
+        }
+    } else if l2.len() < l1.len() {
+        lemma_list_prefix_eq(b, pm, w1, w2, c, l2.len() as int);
+        if l2.len() > 0 {
+            lemma_member_decodes(b, pm, w1, c, l2.len() - 1);
+            lemma_member_decodes(b, pm, w2, c, l2.len() - 1);
+            lemma_member_decodes(b, pm, w1, c, l2.len() as int);
+        } else {
+            lemma_member_decodes(b, pm, w1, c, 0);
+        }
+    }
+    assert(l1.len() == l2.len());
+    assert(l1 =~= l2);
+    assert forall|i: int| 0 <= i < l1.len() implies w1.slots[#[trigger] l1[i]].size == w2.slots[l1[i]].size by {
+        lemma_member_decodes(b, pm, w1, c, i);
+        lemma_member_decodes(b, pm, w2, c, i);
+    }
+}
+/// the first n members agree (n up to the shorter length)
+pub proof fn lemma_list_prefix_eq(b: Seq<u8>, pm: PieceMgr, w1: HeapW, w2: HeapW, c: int, n: int)
+    requires heap_ok(b, pm, w1), heap_ok(b, pm, w2), 0 <= c < 16, 0 <= n
+    ensures forall|i: int| 0 <= i < n && i < w1.lists[c].len() && i < w2.lists[c].len() ==> w1.lists[c][i] == w2.lists[c][i]
+    decreases n
+{
+    let l1 = w1.lists[c]; let l2 = w2.lists[c];
+    if n > 0 {
+        lemma_list_prefix_eq(b, pm, w1, w2, c, n - 1);
+        let i = n - 1;
+        if i < l1.len() && i < l2.len() {
+            if i == 0 {
+                assert(head_at(pm, b, c) == first(l1));
+                assert(head_at(pm, b, c) == first(l2));
+            } else {
+                lemma_member_decodes(b, pm, w1, c, i - 1);
+                lemma_member_decodes(b, pm, w2, c, i - 1);
+            }
+        }
+    }
+}
+
+/// rewriting the next field of a free record
+pub proof fn lemma_free_set_next(b0: Seq<u8>, b1: Seq<u8>, o: int, size: nat, nx0: nat, nx1: nat)
+    requires free_at(b0, o, size, nx0), nx1 <= u64::MAX,
+        b1 == write_at(b0, rec_data_pos(b0, o) as nat, le_bytes(nx1, 8)),
+    ensures free_at(b1, o, size, nx1), b1.len() == b0.len(),
+        forall|i: int| 0 <= i < b0.len() && !(rec_data_pos(b0, o) <= i < rec_data_pos(b0, o) + 8) ==> #[trigger] b1[i] == b0[i],
+        o <= rec_data_pos(b0, o), rec_data_pos(b0, o) + 8 <= o + size,
+{
+    lemma_free_decodes(b0, o, size, nx0);
+    axiom_vu64(size / 8); axiom_vu64(0); lemma_enc0();
+    lemma_le_bytes_len(nx0, 8); lemma_le_bytes_len(nx1, 8);
+    let n1 = enc_len(size / 8) as int;
+    let p = rec_data_pos(b0, o);
+    assert(p == o + n1 + 1);
+    lemma_write_at_basic(b0, p, le_bytes(nx1, 8));
+    assert(rd(b1, o, size as int) =~= free_image(size, nx1)) by {
+        let img0 = free_image(size, nx0); let img1 = free_image(size, nx1);
+        assert(img0.len() == size && img1.len() == size);
+        assert forall|i: int| 0 <= i < size implies rd(b1, o, size as int)[i] == img1[i] by {
+            if n1 + 1 <= i < n1 + 9 {
+                assert(rd(b1, p, 8)[i - n1 - 1] == b1[o + i]);
+            } else {
+                assert(b1[o + i] == b0[o + i]);
+                assert(rd(b0, o, size as int)[i] == b0[o + i]);
+                assert(img0[i] == img1[i]);
+            }
+        }
+    }
+}
+
+/// unlinking member k of list c (see w_unlink) — byte-level facts in, heap_ok out
+pub proof fn lemma_unlink(b0: Seq<u8>, b1: Seq<u8>, pm: PieceMgr, w: HeapW, c: int, k: int)
+    requires heap_ok(b0, pm, w), 0 <= c < 16, 0 <= k < w.lists[c].len(),
+        cleared_at(b1, w.lists[c][k] as int, w.slots[w.lists[c][k]].size),
+        k > 0 ==> free_at(b1, w.lists[c][k - 1] as int, w.slots[w.lists[c][k - 1]].size, nxt(w.lists[c], k))
+            && frame3(b0, b1, w.lists[c][k] as int, w.slots[w.lists[c][k]].size as int, w.lists[c][k - 1] as int, w.slots[w.lists[c][k - 1]].size as int, -8),
+        k == 0 ==> head_at(pm, b1, c) == nxt(w.lists[c], 0)
+            && frame3(b0, b1, w.lists[c][k] as int, w.slots[w.lists[c][k]].size as int, w.lists[c][k] as int, w.slots[w.lists[c][k]].size as int, pm.free_list_offset@[0] as int + 8 * c),
+    ensures heap_ok(b1, pm, w_unlink(w, c, k))
+{
+    let l = w.lists[c];
+    let o = l[k];
+    let w1 = w_unlink(w, c, k);
+    lemma_member_decodes(b0, pm, w, c, k);
+    if k > 0 { lemma_member_decodes(b0, pm, w, c, k - 1); }
+    let p = if k > 0 { l[k - 1] } else { o };
+    let h = if k > 0 { -8 } else { pm.free_list_offset@[0] as int + 8 * c };
+    lemma_frame3_others(b0, b1, pm, w, o, p, h, c);
+    assert(list_ok(w.slots, l, c));
+    // tiling
+    assert(w1.slots.dom() =~= w.slots.dom());
+    lemma_tiling_same_sizes(b0.len(), w.slots, w1.slots);
+    // slots
+    lemma_slot_intro(b1, o, w1.slots[o]);
+    if k > 0 { lemma_list_member(w.slots, l, c, k); lemma_slot_intro(b1, p, w1.slots[p]); }
+    assert forall|o2: nat| #[trigger] w1.slots.dom().contains(o2) implies slot_ok(b1, o2, w1.slots[o2]) by {
+        if o2 != o && o2 != p { assert(w.slots.dom().contains(o2)); }
+    }
+    // lists
+    lemma_list_unlink(w.slots, l, c, k, SlotC::Cleared);
+    assert forall|c2: int| 0 <= c2 < 16 implies #[trigger] head_at(pm, b1, c2) == first(w1.lists[c2]) by {
+        assert(head_at(pm, b0, c2) == first(w.lists[c2]));
+        if c2 == c && k > 0 { assert(head_at(pm, b1, c) == head_at(pm, b0, c)); }
+    }
+    assert forall|c2: int| 0 <= c2 < 16 implies #[trigger] list_ok(w1.slots, w1.lists[c2], c2) by {
+        assert(list_ok(w.slots, w.lists[c2], c2));
+        if c2 != c {
+            let l2 = w.lists[c2];
+            assert forall|i: int| 0 <= i < l2.len() implies #[trigger] w1.slots.dom().contains(l2[i]) && w1.slots[l2[i]] == w.slots[l2[i]] by {
+                lemma_list_member(w.slots, l2, c2, i);
+                lemma_list_member(w.slots, l, c, k);
+                if k > 0 { lemma_list_member(w.slots, l, c, k - 1); }
+            }
+            lemma_list_untouched(w.slots, w1.slots, l2, c2);
+        }
+    }
+    // membership
+    assert(free_members(w1)) by {
+        reveal(free_members);
+        assert forall|o2: nat| #[trigger] w1.slots.dom().contains(o2) && w1.slots[o2].c is Free implies w1.lists[class_idx(w1.slots[o2].size)].contains(o2) by {
+            assert(w.slots.dom().contains(o2));
+            assert(o2 != o);
+            let c2 = class_idx(w.slots[o2].size);
+            if o2 == p { lemma_list_member(w.slots, l, c, k - 1); }
+            assert(w.slots[o2].c is Free);
+            assert(w.lists[c2].contains(o2));
+            let i = choose|i: int| 0 <= i < w.lists[c2].len() && w.lists[c2][i] == o2;
+            assert(slot_ok(b0, o2, w.slots[o2]));
+            lemma_slot_bounds(b0, o2, w.slots[o2]);
+            if c2 == c {
+                let i1 = if i < k { i } else { i - 1 };
+                assert(i != k);
+                assert(rm(l, k)[i1] == o2);
+            } else { assert(w1.lists[c2][i] == o2); }
+        }
+    }
 }
 
 } // verus!
